@@ -634,6 +634,7 @@ def run(ck):
     ck.run_rule("G11.res", "operand encoders' results that may still be unevaluated (branch offsets, immediates) are only combined with + - * or forced with wait()", 2, escape.rule_G11_results)
     ck.run_rule("G12", "definition chains of any length: lazily evaluated values do not force their operands from inside their own thunks", 6, escape.rule_G12)
     from . import c11
+    ck.run_rule("C03.R1u", "a name nobody defines: one error, then an integer value and no definition site (assembly goes on)", 1, c11.rule_undefined_value)
     ck.run_rule("C11.R5", "'.extern all' exports what is defined before AND after it (a definition may stand on either side)", 4, c11.rule_R5)
     from ..rules import treeimm
     ck.run_rule("G4.def", "a symbol value, once built, is not updated in place (only memoised)", 30, treeimm.rule_deferred_immutable)
